@@ -100,16 +100,21 @@ def emu_cuts(ck):
         store[16:16 + len(old)] = old
         new = T.rbytes(rng, rng.choice([0, cap, rng.randrange(cap + 1)]), 1)
         link = EmuLink(store)
-        link.activate().ndef.octets = new
+        rep = {"emulated": True, "nbr": nbr, "nbw": nbw, "nmaxb": nmaxb, "old": old.hex(), "new": new.hex()}
+        try:
+            link.activate().ndef.octets = new
+        except Exception as e:  # noqa
+            ck.fail("t3emu-write-raises", "uninterrupted write on the emulated tag: " + exc_name(e), rep)
+            continue
         total = len(link.writes)
         for k in range(total + 1):
             link = EmuLink(store, cut=k)
-            nd = link.activate().ndef
             try:
+                nd = link.activate().ndef
                 nd.octets = new
             except Exception as e:  # noqa
                 if not exc_name(e).startswith("TagCommandError"):
-                    ck.fail("t3emu-cut-not-reported", exc_name(e), {"emulated": True, "cut": k})
+                    ck.fail("t3emu-cut-not-reported", exc_name(e), dict(rep, cut=k))
             line, _ = T.see(EmuLink(link.store))
             cls = T.classify(line, old, new)
             if cls in ("corrupt", "raises"):
